@@ -53,7 +53,7 @@ var c11race = newChk("C11", "contention",
 			conn.CloseGate = make(chan struct{})
 			conn.OnClose = func() { closeEntered <- struct{}{} }
 		}
-		if err := ad.start(conn, 30*time.Millisecond, 1, false); err != nil {
+		if err := ad.start(conn, 30*time.Millisecond, 1, 0); err != nil {
 			return obs.Failf("C11/harness", "client starts", "%v", err)
 		}
 		want := wantTypes(c.V6)[0]
